@@ -237,6 +237,18 @@ func cmdCheck(args []string) int {
 		}
 	}
 
+	if os.Getenv("VERIF_DUMP_REACH") != "" {
+		for _, rr := range mustReach {
+			set := map[string]bool{}
+			for _, j := range rr.gr.jobs[rr.from:rr.to] {
+				for k := range j.reaches {
+					set[k] = true
+				}
+			}
+			b, _ := json.Marshal(map[string]interface{}{"pkg": rr.gr.spec.Pkg, "entry": rr.js.Entry, "sweep": rr.js.Sweep, "params": rr.js.Params, "reached": sortedKeys(set)})
+			fmt.Println("REACH-DUMP " + string(b))
+		}
+	}
 	for _, rr := range mustReach {
 		for _, lbl := range rr.js.MustReach {
 			ok := false
